@@ -703,8 +703,8 @@ def run(ctx):
         with open(os.environ["C15_DEBUG_CASES"], "w") as f:
             json.dump(cases, f)
         return
-    failing = ctx.coq_cases("c15", ["Reusable"], cases, chunk=40,
-                            prelude="\n".join(prelude[k][0] for k in sorted(prelude)))
+    failing = c14.coq_cases_limited(ctx, "c15", ["Reusable"], cases, 40,
+                                    prelude="\n".join(prelude[k][0] for k in sorted(prelude)))
     for idx, label, val in failing:
         rec = dict(recs[idx]) if idx < len(recs) else {}
         rec["model_value"] = val
